@@ -129,6 +129,19 @@ def small_trees(n, memo):
     return out
 
 
+def same_op_nesting(e, acc):
+    """operator nodes with a direct child of the same operator (written with parentheses: `a || (b || c)` keeps its nesting)"""
+    k = e[0]
+    if k in ('seq', 'alt', 'fb', 'sub'):
+        for c in e[1]:
+            if c[0] == k and k != 'sub':
+                acc.add(k + '_in_' + k)
+            same_op_nesting(c, acc)
+    elif k in ('opt', 'many', 'dd'):
+        same_op_nesting(e[1], acc)
+    return acc
+
+
 def has_sub(e):
     k = e[0]
     if k == 'sub':
@@ -462,6 +475,7 @@ def run(ctx, res):
                 'escape or a description, or (malformed) that Rust rejects' % nmax3)
     seen_nontrivial = set()
     by_job = {}
+    nested = {}
     nspan_known = 0
     nerr = 0
     for c, d, m in zip(cases, dumps, mouts):
@@ -500,6 +514,9 @@ def run(ctx, res):
                                                    dict(replay, why='tree', expected=sexp.dump(want)[:3000])))
             continue
         by_job.setdefault(c['job'], []).append(sexp.dump(erase(rv)))
+        for st_ in g:
+            for kind_ in same_op_nesting(st_[-1], set()):
+                nested[kind_] = nested.get(kind_, 0) + 1
         if count_ops(rv) > 0 or b'\\' in text or b'"' in text:
             seen_nontrivial.add(text)
         if rv != c['true']:
@@ -534,6 +551,12 @@ def run(ctx, res):
     res.extra['rejected_by_rust'] = nerr
     res.extra['generated_trees_not_printable'] = notwf
     res.extra['trees_with_several_layouts'] = multi
+    # printed texts that parsed back to their tree and whose tree nests an operator directly inside the same operator
+    res.extra['round_trips_with_same_operator_nesting'] = nested
+    for kind_ in ('fb_in_fb', 'alt_in_alt', 'seq_in_seq'):
+        if nested.get(kind_, 0) < 20:
+            res.violations.append(report.Violation('coverage floor: only %d round trips with %s' % (nested.get(kind_, 0), kind_),
+                                                   dict(kind='coverage-floor', counts=nested), found_input=False))
     res.extra['span_reset_instances'] = nspan_known
     # trees in the parser's image that the printer does not cover (a limit of the specification,
     # not of the implementation): literals starting with '#' inside a word are the known corner
